@@ -1,5 +1,7 @@
 import BurrowVerif.Model.Tmpl
 import BurrowVerif.Model.Json
+import BurrowVerif.Model.TmplFlow
+import BurrowVerif.Spec.Tmpl
 import BurrowVerif.Generated.Templates
 import Driver.Util
 
@@ -199,11 +201,20 @@ def step (args : List String) : String :=
           partsJson := pjson }
         let inv := kv rest "inv" == some "1"
         let safe := kv rest "safe" == some "1"
+        -- the assumptions of the JSON theorem about Go's own renderers, on the renderings of this case
+        let envok := fmtT.all (fun e => timeRenderingOk e.2) &&
+          f32T.all (fun e => match hexNat? e.1 with | some b => floatRenderingOk b e.2 | none => false) &&
+          (!safe || partsRenderingOk pjson)   -- json.Marshal refuses non-finite floats: only for JSON-safe data
+        let envViol := if envok then "" else " ~specviol=envok"
+        let flowS :=
+          if shipped && isJsonTemplate name then
+            (if jsonOk (Burrow.Spec.Tmpl.refine Burrow.Generated.dataSchema) t Burrow.Generated.dataType then " ~flow=ok" else " ~flow=refused")
+          else ""
         match exec Burrow.Generated.dataSchema env t data with
         | .ok out =>
           let jv := Burrow.Json.valid out
           let viol := if shipped && safe && isJsonTemplate name && !jv then " ~specviol=json" else ""
-          s!"r=ok out={hexOfString out} json={if jv then "valid" else "invalid"} gen={gen}{viol}"
+          s!"r=ok out={hexOfString out} json={if jv then "valid" else "invalid"} gen={gen}{flowS}{viol}{envViol}"
         | .err _ => s!"r=err gen={gen}" ++ (if shipped && inv then " ~specviol=render" else "")
         | .unsup w => s!"r=unsup gen={gen} ~why={hexOfString w}"
     | _, _, _, _, _, _ => "bad-op"
